@@ -753,6 +753,17 @@ impl Authentication for AuthenticationBuiltin {
           ));
         }
 
+        // The reply must echo the DH1 public key that we sent in the request. The
+        // signature verified below covers reply.dh1, i.e. the key the remote
+        // received: without this check a request whose dh1 was replaced in
+        // transit would still lead to a completed authentication on our side.
+        let dh1_public_key = dh1.public_key_bytes()?;
+        if reply.dh1 != dh1_public_key {
+          return Err(create_security_error_and_log!(
+            "Diffie-Hellman parameter DH1 mismatch on authentication reply"
+          ));
+        }
+
         if let Some(received_hash_c1) = reply.hash_c1 {
           if hash_c1 != received_hash_c1 {
             return Err(create_security_error_and_log!(
@@ -835,8 +846,6 @@ impl Authentication for AuthenticationBuiltin {
              HandshakeReplyMessageToken. Expected {expected_kagree_algo}"
           ));
         }
-
-        let dh1_public_key = dh1.public_key_bytes()?;
 
         // Create signature for final message:
         // Sign( Hash(C1) | Challenge1 | DH1 | Challenge2 | DH2 | Hash(C2) ), see Table
